@@ -1124,7 +1124,7 @@ def build(repo=None, mode="yaml", collect_unknown=False):
     bodies = {}
     for q in fnames:
         bodies[q] = resolve(tr.bodies[q])
-    return {
+    prog = {
         "mode": mode,
         "functions": fnames,
         "fidx": fidx,
@@ -1135,7 +1135,11 @@ def build(repo=None, mode="yaml", collect_unknown=False):
         "mro": mro,
         "entries": {m: fidx["%s.%s" % (ENTRY_CLASS, m)] for m in ENTRY_METHODS},
         "n_package_functions": len(tr.ix.fns),
+        "tables_used": {"boundary": sorted(tr.boundary_used), "assumed_tests": sorted(tr.assumed_used),
+                        "skipped_by_name": sorted(tr.skipped_by_name)},
     }
+    prog["table"], prog["rounds"] = analyse(prog)
+    return prog
 
 
 def iter_handler_classes(s):
@@ -1371,13 +1375,18 @@ def emit(prog, path):
         L.append("Definition cls_%s : N := %d." % (nm, prog["cidx"][T.NAMED_CLASSES[nm]]))
     L.append("Definition ir_nsites : N := %d." % len(prog["sites"]))
     L.append("Definition ir_nclasses : N := %d." % len(prog["classes"]))
-    # known-finding site sets: described in c03_tables.FINDING_SITES by (function, class, kind-prefix)
+    L.append("Definition ir_nsites_nat : nat := %d." % len(prog["sites"]))
+    L.append("(* Jacobi rounds after which the Kleene iteration of the analysis is stable (python mirror + 2; CHECKED by postfix) *)")
+    L.append("Definition ir_rounds : nat := %d." % (prog["rounds"] + 2))
+    L.append("Definition ir_entries : list N := [%s]." % "; ".join("entry_%s" % m for m in ENTRY_METHODS if m != "error"))
+    # known-finding site sets: described in c03_tables.FINDING_SITES by (function, class, kind-prefix, modes)
+    rows = []
     for k, key in sorted(T.FINDING_KEYS.items()):
-        ids = finding_sites(prog, key)
-        L.append("(* finding class %d = %s *)" % (k, key))
-        L.append("Definition finding_sites_%d : list N := [%s]." % (k, "; ".join(str(i) for i in ids)))
-    L.append("Definition ir_finding_sites : list (N * list N) := [%s]." %
-             "; ".join("(%d, finding_sites_%d)" % (k, k) for k in sorted(T.FINDING_KEYS)))
+        for (mt, mf), ids in sorted(finding_sites(prog, key).items()):
+            L.append("(* finding class %d = %s, exit_on_error in {%s%s} *)" % (k, key, "true " if mt else "", "false" if mf else ""))
+            rows.append("(%d, (%s, %s), [%s])" % (k, "true" if mt else "false", "true" if mf else "false", "; ".join(str(i) for i in ids)))
+    L.append("(* (finding class, (applies when exit_on_error=true, applies when exit_on_error=false), raise sites) *)")
+    L.append("Definition ir_finding_sites : list (N * (bool * bool) * list N) := [%s]." % ";\n  ".join(rows))
     text = "\n".join(L) + "\n"
     tmp = path + ".tmp"
     with open(tmp, "w") as f:
@@ -1391,12 +1400,28 @@ def emit(prog, path):
 
 
 def finding_sites(prog, key):
-    ids = []
-    for fnq, cls, kindp in T.FINDING_SITES[key]:
+    """FINDING_SITES[key] = [(function, class-or-superclass, kind prefix, modes)], modes in "tf"/"t"/"f":
+    -> {(applies_in_mode_true, applies_in_mode_false): [site ids]}"""
+    res = {}
+    for fnq, cls, kindp, modes in T.FINDING_SITES[key]:
+        ids = res.setdefault(("t" in modes, "f" in modes), set())
         for i, s in enumerate(prog["sites"]):
             if s["fn"] == fnq and s["kind"].startswith(kindp) and (cls == s["cls"] or cls in prog["mro"][s["cls"]]):
-                ids.append(i)
-    return sorted(set(ids))
+                ids.add(i)
+    return {m: sorted(v) for m, v in res.items()}
+
+
+def finding_of_site(prog, i, x):
+    for k, key in sorted(T.FINDING_KEYS.items()):
+        for (mt, mf), ids in finding_sites(prog, key).items():
+            if i in ids and (mt if x else mf):
+                return k
+    return 0
+
+
+def allowed(prog, x, i):
+    cls = prog["sites"][i]["cls"]
+    return cls == T.EXIT0 or cls == (T.EXIT2 if x else T.ARGERR)
 
 
 def translate():
@@ -1406,7 +1431,7 @@ def translate():
     emit(prog, path)
     meta = os.path.join(framework.COQ, "Gen", "C03ExnIR.json")
     with open(meta, "w") as f:
-        json.dump({k: prog[k] for k in ("functions", "sites", "classes", "mro", "entries")}, f)
+        json.dump({k: prog[k] for k in ("functions", "sites", "classes", "mro", "entries", "rounds")}, f)
     return prog
 
 
@@ -1419,8 +1444,8 @@ if __name__ == "__main__":
         print(len(tr.bodies), "functions reached")
     else:
         prog = build()
+        table, rounds = prog["table"], prog["rounds"]
         for xx in (False, True):
-            table, rounds = analyse(prog, xx)
             for m in ENTRY_METHODS:
                 q = "%s.%s" % (ENTRY_CLASS, m)
                 print("== %s exit_on_error=%s (%d rounds)" % (m, xx, rounds))
